@@ -168,7 +168,7 @@ PROPS = {
              "length, #nonzero class, first nonzero position, value for unit vectors).",
         trusted=COMMON_TRUST),
     "C08": dict(
-        module="FastQr.Props.C08", level="proof", key=key_unit,
+        module="FastQr.Props.C08", more_modules=["FastQr.Props.C08Built"], level="proof", key=key_unit,
         rule="cases: (plus pairs of forced masks whose penalties TIE, found with the recorder) real datamasking::mask on the real blank symbol, exhaustive 40 versions x 8 masks x 2 value fills; all 28 "
              "mask pairs of forced-mask builds of one payload (quick 6 versions, thorough all 40 x 3). distinct = (op, version, masks, level).",
         exhaustive_quick=True, exhaustive_thorough=True,
